@@ -420,9 +420,74 @@ def gen_trace(rng):
     return {"ops": ops}
 
 
+def all_ops():
+    ops = []
+    for a in ATTRS:
+        for v in VALUES[a]:
+            ops.append({"who": "mut", "op": "set", "attr": a, "value": v})
+    for r in READS:
+        ops.append({"who": "obs", "op": "read", "attr": r})
+    return ops
+
+
+def constructs(max_kwargs):
+    import itertools
+
+    out = [{}]
+    for k in range(1, max_kwargs + 1):
+        for attrs_ in itertools.combinations(ATTRS, k):
+            for vals in itertools.product(*[VALUES[a] for a in attrs_]):
+                out.append(dict(zip(attrs_, vals)))
+    return out
+
+
+def exhaustive_space(tier):
+    """Bounded exhaustive part: (construct with <= 1 argument) x all op sequences of length <= D1, and
+    (construct with <= 2 arguments) x all op sequences of length <= D2."""
+    d1, d2 = (1, 0) if tier == "quick" else (2, 1)
+    return [(1, d1), (2, d2)]
+
+
+def exhaustive_histories(max_kwargs, depth, lo, hi):
+    """The histories number lo..hi-1 of the enumeration (construct index major, op sequences minor)."""
+    import itertools
+
+    ops = all_ops()
+    cons = constructs(max_kwargs)
+    if max_kwargs == 2:
+        cons = [c for c in cons if len(c) == 2]  # <=1 argument is covered by the other space
+    seqs = [()]
+    for d in range(1, depth + 1):
+        seqs += list(itertools.product(range(len(ops)), repeat=d))
+    total = len(cons) * len(seqs)
+    for idx in range(lo, min(hi, total)):
+        ci, si = divmod(idx, len(seqs))
+        yield {"ops": [{"who": "mut", "op": "construct", "kwargs": cons[ci]}] + [ops[j] for j in seqs[si]]}
+
+
+def exhaustive_total(max_kwargs, depth):
+    ops = len(all_ops())
+    cons = constructs(max_kwargs)
+    ncons = len([c for c in cons if len(c) == 2]) if max_kwargs == 2 else len(cons)
+    return ncons * sum(ops ** d for d in range(depth + 1))
+
+
 def plan(tier, seed, args):
-    n = args.runs or (800 if tier == "quick" else 30000)
-    return [{"run": i, "seed": seed, "tier": tier, "n": 40} for i in range(n)]
+    n = args.runs or (600 if tier == "quick" else 15000)
+    tasks = []
+    run = 0
+    if args.only != "seeded":
+        for mk, depth in exhaustive_space(tier):
+            total = exhaustive_total(mk, depth)
+            chunk = 2000
+            for lo in range(0, total, chunk):
+                tasks.append({"run": run, "seed": seed, "tier": tier, "exh": [mk, depth, lo, lo + chunk]})
+                run += 1
+    if args.only != "exhaustive":
+        for i in range(n):
+            tasks.append({"run": run, "seed": seed, "tier": tier, "n": 40})
+            run += 1
+    return tasks
 
 
 def run_task(task):
@@ -431,8 +496,16 @@ def run_task(task):
     viols = []
     dig = []
     sample = None
-    for j in range(task["n"]):
-        trace = gen_trace(rng)
+    if "exh" in task:
+        traces = exhaustive_histories(*task["exh"])
+        stats.add("exhaustive_spaces", f"construct<={task['exh'][0]}args x depth<={task['exh'][1]}")
+    else:
+        traces = (gen_trace(rng) for _ in range(task["n"]))
+    ntr = 0
+    for trace in traces:
+        ntr += 1
+        if "exh" in task:
+            stats.inc("probe.exhaustive_histories")
         vs = execute(trace)
         viols.extend(vs)
         nobs = sum(1 for o in trace["ops"] if o["who"] == "obs")
@@ -448,7 +521,7 @@ def run_task(task):
         dig.append((common.short(common.jdump(trace)), len(vs), common.short(repr(mo))))
         if sample is None and task["run"] % 97 == 0 and nobs and info["rejected"]:
             sample = {"ops": trace["ops"], "mutator_outcomes": [m[0] if m[0] == "ok" else m for m in mo]}
-    return {"n": task["n"], "digest": common.short(repr(dig)), "violations": viols, "stats": stats.export(), "sample": sample}
+    return {"n": ntr, "digest": common.short(repr(dig)), "violations": viols, "stats": stats.export(), "sample": sample}
 
 
 def shrink(trace, still_fails):
@@ -469,6 +542,10 @@ def shrink(trace, still_fails):
 def coverage_extra(stats, tier):
     return {
         "distinct_states": stats.distinct("histories"),
+        "exhaustive_subspaces": sorted(stats.s.get("exhaustive_spaces", [])),
+        "exhaustive_histories": stats.c.get("probe.exhaustive_histories", 0),
+        "exhaustive_note": "the listed sub-spaces (all constructions with that many arguments over the value alphabets x all operation "
+                           "sequences up to that depth) are enumerated completely; everything deeper is seeded sampling",
         "fault_kinds_configured": ["rejected assignment (TypeError by validators/setters)", "observer read interleaved between mutator steps"],
         "simulated_time": "operations (one step = one construct/assign/read)",
     }
